@@ -528,3 +528,120 @@ func init() {
 		c.Note("one revision-3 polling session, 2-3 consecutive data requests alternating text payloads and binary (octet-stream) payloads in every order: all messages delivered in order with their kind")
 	})
 }
+
+// Frames delivered to the server in small pieces (1 / 2 / 3 bytes per stream read) on webtransport and
+// websocket, around the frame-length classes; and messages of exactly the maximum payload size the
+// server announced, on every transport.
+func init() {
+	register("C02", "fragmented-frames", false, func(c *Ctx) {
+		n := 0
+		for _, kind := range []string{"webtransport", "websocket"} {
+			for _, chunk := range []int{1, 2, 3} {
+				for _, size := range []int{5, 125, 126, 127, 200, 4095, 4096, 4097, 70000} {
+					kind, chunk, size := kind, chunk, size
+					if size == 70000 {
+						chunk = 997 * chunk // (a step per byte would exhaust the execution's step budget)
+					}
+					n++
+					id := fmt.Sprintf("%s frames read %d byte(s) at a time, messages of %d bytes", kind, chunk, size)
+					c.Once(id, func(x *vsched.Exec) {
+						w := NewWorld(x, sessOpts())
+						s := openSession(x, w, kind, false)
+						if s == nil {
+							return
+						}
+						msgs := []Pkt{Msg(strings.Repeat("t", size)), MsgBin(wtPayload(size, true)), Msg("x"), MsgBin(wtPayload(size, true)), Msg(strings.Repeat("u", size))}
+						if s.wc != nil {
+							s.wc.Stream.chunk = chunk
+						} else {
+							s.ws.pipe().SrvReadChunk = chunk
+						}
+						vsched.GoNamed("client", func() {
+							for _, m := range msgs {
+								if s.wc != nil {
+									s.wc.SendPkt(m)
+								} else {
+									s.ws.SendPkt(m)
+								}
+							}
+						})
+						x.Run(x.Now() + time.Second)
+						if got := s.rec.Messages(); !pktsEqual(got, msgs) {
+							x.Fail("inbound[%s fragmented-frames]: client submitted %s, application received %s; session %s %v", kind, fmtPkts(msgs), fmtPkts(got), s.rec.Sock.ReadyState(), s.rec.CloseReasons())
+						}
+						for _, t := range x.Panics() {
+							x.Fail("panic[%s]: %v", kind, t.Panic)
+						}
+					})
+				}
+			}
+		}
+		c.Res.Distinct = int64(n)
+		c.Note("five messages (text, binary, small text, binary, text) of sizes around the frame-length classes and the read buffer, delivered to the server 1 / 2 / 3 bytes per read on webtransport and websocket: same messages, same kinds, same order")
+	})
+	register("C02", "exact-max-payload", false, func(c *Ctx) {
+		n := 0
+		for _, kind := range []string{"polling", "polling3", "websocket", "webtransport"} {
+			for _, max := range []int64{100, 4096} {
+				for _, bin := range []bool{false, true} {
+					kind, max, bin := kind, max, bin
+					n++
+					id := fmt.Sprintf("%s message of exactly the announced maxPayload %d binary=%v", kind, max, bin)
+					c.Once(id, func(x *vsched.Exec) {
+						o := sessOpts()
+						o.SetMaxHttpBufferSize(max)
+						w := NewWorld(x, o)
+						s := openSession(x, w, kind, false)
+						if s == nil {
+							return
+						}
+						// the wire form of the packet (type character / byte + data; polling v3: with its length prefix) has exactly max bytes
+						var m Pkt
+						size := func(d int) int {
+							var p Pkt
+							if bin {
+								p = MsgBin(wtPayload(d, true))
+							} else {
+								p = Msg(strings.Repeat("t", d))
+							}
+							if s.pc != nil {
+								b, _ := s.pc.EncodeBody([]Pkt{p})
+								return len(b)
+							}
+							return d + 1
+						}
+						d := int(max)
+						for d > 0 && size(d) > int(max) {
+							d--
+						}
+						if bin {
+							m = MsgBin(wtPayload(d, true))
+						} else {
+							m = Msg(strings.Repeat("t", d))
+						}
+						if size(d) != int(max) {
+							x.Outcome = "no encoding of exactly that size"
+							return
+						}
+						vsched.GoNamed("client", func() {
+							switch {
+							case s.pc != nil:
+								s.pc.Post([]Pkt{m})
+							case s.ws != nil:
+								s.ws.SendPkt(m)
+							default:
+								s.wc.SendPkt(m)
+							}
+						})
+						x.Run(x.Now() + time.Second)
+						if got := s.rec.Messages(); !pktsEqual(got, []Pkt{m}) {
+							x.Fail("inbound[%s exact-max-payload]: a message whose wire form has exactly the announced maxPayload (%d bytes) was not delivered: received %s; session %s %v", kind, max, fmtPkts(got), s.rec.Sock.ReadyState(), s.rec.CloseReasons())
+						}
+					})
+				}
+			}
+		}
+		c.Res.Distinct = int64(n)
+		c.Note("a message whose wire form has exactly the maximum payload size the open packet announced (100 / 4096), text and binary, on polling v4/v3, websocket and webtransport: delivered")
+	})
+}
